@@ -78,15 +78,23 @@ func vp_C19_dnscache_step() {
 }
 
 // vpYieldResolver lets the other goroutines run while a lookup is in the resolver (the cache lock is released there).
-type vpYieldResolver struct{ calls int }
+type vpYieldResolver struct {
+	calls     int
+	slowFirst bool // the first call takes longer than the cache duration (after the others have run)
+}
 
 func (r *vpYieldResolver) LookupIPAddr(ctx context.Context, host string) ([]net.IPAddr, error) {
 	r.calls++
+	first := r.calls == 1
 	vpGoSched()
+	if first && r.slowFirst {
+		vpSleep(3) // the cache duration is two seconds
+	}
 	return []net.IPAddr{{IP: net.IPv4(10, 0, 0, host[0])}}, nil
 }
 
-// vp:check C19 both configs=size:1|2;lookups:2|3 K=24 timeout=1200 clock=ticking
+// vp:check C19 quick configs=size:1|2;lookups:2 K=24 timeout=1200 clock=ticking
+// vp:check C19 thorough configs=size:1|2;lookups:2|3 K=24 timeout=3000 clock=ticking
 // vp_C19_dnscache_concurrent: two or three goroutines look up host names (chosen among a, b, c) through
 // one cache of size 1 or 2, optionally pre-filled with one (valid or expired) entry; while one lookup is in the resolver - where the cache
 // lock is released - the others run (each of them yielding in the resolver in turn), in every order. Afterwards the
@@ -95,18 +103,19 @@ func (r *vpYieldResolver) LookupIPAddr(ctx context.Context, host string) ([]net.
 func vp_C19_dnscache_concurrent() {
 	size := vpConfigInt("size")
 	k := vpConfigInt("lookups")
-	res := &vpYieldResolver{}
-	c := &DNSCache{resolver: res, size: size, duration: time.Minute, entries: map[string]*dnsCacheEntry{}}
+	res := &vpYieldResolver{slowFirst: vpNondetBool("first_resolver_call_outlasts_the_cache_duration")}
+	c := &DNSCache{resolver: res, size: size, duration: 2 * time.Second, entries: map[string]*dnsCacheEntry{}}
 	switch vpChoice("prefilled", "no", "a-valid", "a-expired", "c-valid") {
 	case "a-valid":
-		c.entries["a"] = &dnsCacheEntry{addrs: []net.IPAddr{{IP: net.IPv4(10, 0, 0, 'a')}}, expires: time.Now().Add(30 * time.Second)}
+		c.entries["a"] = &dnsCacheEntry{addrs: []net.IPAddr{{IP: net.IPv4(10, 0, 0, 'a')}}, expires: time.Now().Add(1 * time.Second)}
 	case "a-expired":
-		c.entries["a"] = &dnsCacheEntry{addrs: []net.IPAddr{{IP: net.IPv4(10, 0, 0, 'a')}}, expires: time.Now().Add(-30 * time.Second)}
+		c.entries["a"] = &dnsCacheEntry{addrs: []net.IPAddr{{IP: net.IPv4(10, 0, 0, 'a')}}, expires: time.Now().Add(-1 * time.Second)}
 	case "c-valid":
-		c.entries["c"] = &dnsCacheEntry{addrs: []net.IPAddr{{IP: net.IPv4(10, 0, 0, 'c')}}, expires: time.Now().Add(30 * time.Second)}
+		c.entries["c"] = &dnsCacheEntry{addrs: []net.IPAddr{{IP: net.IPv4(10, 0, 0, 'c')}}, expires: time.Now().Add(1 * time.Second)}
 	}
 	names := make([]string, k)
 	got := make([]*dnsCacheEntry, k)
+	at := make([]time.Time, k) // when each caller got its answer
 	for i := 0; i < k; i++ {
 		names[i] = vpChoice("lookup"+string(rune('0'+i)), "a", "b", "c")
 	}
@@ -116,6 +125,7 @@ func vp_C19_dnscache_concurrent() {
 		go func(i int) {
 			defer wg.Done()
 			got[i], _ = c.lookup(context.Background(), names[i])
+			at[i] = time.Now()
 		}(i)
 	}
 	wg.Wait()
@@ -130,6 +140,8 @@ func vp_C19_dnscache_concurrent() {
 		vpAssert("caller-got-an-answer", got[i] != nil)
 		if got[i] != nil {
 			vpAssert("answer-for-the-host-asked", got[i].addrs[0].IP[len(got[i].addrs[0].IP)-1] == names[i][0])
+			// never an entry past its expiry, however long the caller's own resolver call took
+			vpAssert("answer-not-past-its-expiry", at[i].Before(got[i].expires))
 		}
 	}
 	vpReach("done", true)
